@@ -25,12 +25,16 @@ func main() {
 	r := lib.Rand("c11")
 	progs, cases := 2, 60
 	if lib.Thorough() {
-		progs, cases = 10, 120
+		progs, cases = 8, 100
 	}
 	rep.Extra["programs"] = progs
 	rep.Extra["cases_per_program"] = cases
 	for pi := 0; pi < progs; pi++ {
-		o := gen.PtrOpts{Cases: cases, Stmts: 8 + r.Intn(8), Funcs: 2 + r.Intn(3), NoGo: pi%3 == 2}
+		o := gen.PtrOpts{Cases: cases, Stmts: 8 + r.Intn(8), Funcs: 2 + r.Intn(3)}
+		if pi > 0 { // the first program has every feature; the others vary shape and feature set
+			o = gen.PtrOpts{Cases: cases, Stmts: 5 + r.Intn(22), Funcs: 1 + r.Intn(5), NoGo: r.Intn(4) == 0,
+				NoAppend: r.Intn(6) == 0, NoStruct: r.Intn(5) == 0}
+		}
 		pp := gen.GenPtrProg(r, o)
 		run := ptrrun.Run("C11", fmt.Sprintf("prog%d", pi), pp, rep)
 		if run == nil {
@@ -85,7 +89,8 @@ func checkProgram(rep *lib.Report, run *ptrrun.Result, pi int) {
 		}
 	}
 
-	closed := run.PtrClosed && run.CgClosed && len(d.MissingQuery) == 0 && run.BadRecords == 0
+	rep.Extra["indirect_cells_observed"] = intOf(rep.Extra["indirect_cells_observed"]) + run.IndirectObserved
+	closed := run.PtrClosed && run.CgClosed && run.IqClosed && len(d.MissingQuery) == 0 && run.BadRecords == 0
 	switch {
 	case len(missed) > 0:
 		m := missed[0]
@@ -110,8 +115,8 @@ func checkProgram(rep *lib.Report, run *ptrrun.Result, pi int) {
 				}
 			}
 		}
-		what := fmt.Sprintf("the real points-to result does not satisfy the closure criterion (ptr=%v cg=%v missing-queries=%d bad-records=%d): %s; no run-time alias was missed on the executed inputs",
-			run.PtrClosed, run.CgClosed, len(d.MissingQuery), run.BadRecords, strings.Join(run.FailText(6), " | "))
+		what := fmt.Sprintf("the real points-to result does not satisfy the closure criterion (ptr=%v cg=%v indirect=%v missing-queries=%d bad-records=%d): %s; no run-time alias was missed on the executed inputs",
+			run.PtrClosed, run.CgClosed, run.IqClosed, len(d.MissingQuery), run.BadRecords, strings.Join(run.FailText(6), " | "))
 		c := -1
 		if len(run.FailCases) > 0 {
 			c = run.FailCases[0]
